@@ -9,6 +9,7 @@ partial def readAll (h : IO.FS.Stream) (acc : Array String) : IO (Array String) 
 def dispatch (mode : String) : Option (List String → Verdict) :=
   match mode with
   | "C10" => some SockModel.Drive.C10.runCase
+  | "C10rx" => some SockModel.Drive.C10.runCaseRx
   | "C06" => some SockModel.Drive.C06.runCase
   | "C01" => some SockModel.Drive.C01.runCaseC01
   | "C07s" => some SockModel.Drive.C01.runCaseC07
